@@ -52,6 +52,14 @@ def cases(tier):
         c = dict(gen.params(r), events=es, policy=r.choice(['error', 'dedup']), stream='wide', n_jobs=r.choice([2, 4]),
                  per_job=r.choice([7, 100, 1000]), per_file=r.choice([2, 10000000]), _timeout=300)
         out.append((c, LEARNERS))
+    # outside the property's quantifier (it starts at one event), run to keep the model honest where
+    # the learners differ: an event file with ZERO events (model: ndlCall, theorems ndl_call_empty_*)
+    for init in (False, True):
+        c = dict(gen.params(r), events=[], policy='error', stream='zero_events', n_jobs=2, per_job=r.choice([1, 10]))
+        if init:
+            c['init_lw'] = {'outcomes': ['x', 'y'], 'cues': ['a'], 'vals': ['1/2', '-3/4']}
+            c['init_cells'] = [['x', 'a', '1/2'], ['y', 'a', '-3/4']]
+        out.append((c, LEARNERS))
     # long sequences outside the exact domain (tolerance comparison) - thorough only
     if tier == 'thorough':
         for i in range(40):
@@ -79,7 +87,7 @@ def run(rep, pool, driver, tier):
         es = c['events']
         rep.case({'events': es, 'p': [c['alpha'], c['beta1'], c['beta2'], c['lambda']], 'policy': c['policy'],
                   'learner': l, 'cfg': [c.get('n_jobs'), c.get('per_job'), c.get('per_file')]},
-                 nontrivial=len(es) >= 2 or len(es[0][0]) >= 2, stream=c['stream'])
+                 nontrivial=len(es) >= 2 or (len(es) == 1 and len(es[0][0]) >= 2), stream=c['stream'])
         rep.count('learner:' + l)
         rep.count('policy:' + c['policy'])
         rep.count('outcome:' + (model.get('err') or 'Returned'))
